@@ -24,9 +24,9 @@ PROPS["C02"] = dict(
           "judged against the planted class, offered Farkas vectors and rays by exact separation / recession checks. "
           "non-trivial = m >= 2 and a verdict or certificate vector was produced; distinct = distinct case text."),
     assumptions=["planted class is correct by construction (gen_lp.hpp)", "oracle tolerances: 1e-9/1e-7 relative after max-norm normalisation"],
-    min_nontrivial=dict(quick=500, thorough=20000),
+    min_nontrivial=dict(quick=20000, thorough=20000),
     stages=[dict(name="planted", target="solve", x=dict(prop="C02"),
-                 quick=dict(cases=3000, maxsize=80), thorough=dict(cases=150000, maxsize=100))],
+                 quick=dict(cases=12000, maxsize=80), thorough=dict(cases=150000, maxsize=100))],
 )
 
 
@@ -104,7 +104,7 @@ PROPS["C03"] = dict(
 )
 
 PROPS["C16"] = dict(
-    level="exploration",
+    level="fault_enumeration",
     rule=("fault enumeration: planted LP (optimal / infeasible / unbounded / both) x algorithm x representation x simplifier "
           "(x scaler, persistent scaling, seed); the reference solve gives N iterations; then a FRESH solver is stopped at EVERY "
           "iteration limit k = 0..N (<= 80 stratified when N > 80), at every output line k of the solve log (interrupt flag raised by "
